@@ -169,6 +169,43 @@ def make_rewrites(summary=None):
     return [rw]
 
 
+def masked_count_sum(t):
+    """sum(E) where E reads the multiplicities only through c[c > k] (c = the counts of np.unique: integers >= 1): the left-out classes are those
+    with 1 <= c <= k; if E vanishes for each of these values the sum over the kept classes is the sum over all classes.  Otherwise the term is
+    left as it is (and differs from the specification: a class with such a multiplicity is dropped from the count)."""
+    if not (head(t) == "call" and strip(t[1]) in (("glob", "numpy.sum"), ("glob", "builtins.sum")) and len(t[2]) == 1 and not t[3]):
+        return t
+    E = t[2][0]
+    masks = set()
+    for x in walk(("t", E)):
+        if head(x) == "sub":
+            U, c = strip(x[1]), strip(x[2])
+            if head(U) == "call" and U[1] == ("unbound", "UNIQ_counts") and head(c) == "cmp" and strip(c[2]) == U and is_const(strip(c[3])) \
+                    and isinstance(strip(c[3])[2], (int, float)) and not isinstance(strip(c[3])[2], bool):
+                masks.add(x)
+    if len(masks) != 1:
+        return t
+    M = masks.pop()
+    U, c = strip(M[1]), strip(M[2])
+    op, k = c[1], strip(c[3])[2]
+    import math as _m
+    left_out = {">": range(1, int(_m.floor(k)) + 1), ">=": range(1, int(_m.ceil(k))), "!=": ([int(k)] if float(k).is_integer() and k >= 1 else [])}.get(op)
+    if left_out is None or len(left_out) > 8:
+        return t
+    bare = subst(E, {M: const(0)})
+    if any(x == U for x in walk(("t", bare))):
+        return t          # the unmasked counts take part as well: shapes differ, not this rule's business
+    from ..rf import RFContext
+    for v in left_out:
+        ctx = RFContext()
+        try:
+            if not ctx.rf(subst(E, {M: const(v)})).n.is_zero():
+                return t
+        except Exception:
+            return t
+    return ("call", t[1], (subst(E, {M: U}),), ())
+
+
 def zip_pair(t):
     """zip(x[0], x[1]) for an unpacked pair is zip(*x)."""
     if head(t) == "call" and strip(t[1]) == ("glob", "builtins.zip") and len(t[2]) == 2 and not t[3]:
@@ -201,7 +238,7 @@ class PcEquiv(Equiv):
 
     def __init__(self, vec, summary=None):
         from ..rules import std_rewrites
-        super().__init__(vec=vec, rewrites=make_rewrites(summary) + std_rewrites(ident=IDENT) + make_rewrites(summary) + [zip_pair],
+        super().__init__(vec=vec, rewrites=make_rewrites(summary) + std_rewrites(ident=IDENT) + make_rewrites(summary) + [zip_pair, masked_count_sum],
                          modelled={"numpy.unique", "numpy.intersect1d", "pandas.DataFrame", "builtins.isinstance", "builtins.zip", "builtins.str"})
 
     def make_ctx(self):
@@ -232,7 +269,7 @@ def check_against_spec(r, rule, fname, what, vec=is_vec, modname="pyrepseq.stats
     eq = PcEquiv(vec, s)
     # separators given by a parameter: canonical positional names on both sides
     from ..rules import std_rewrites
-    eq.rewrites = make_rewrites(_canon_summary(s)) + std_rewrites(ident=IDENT) + make_rewrites(_canon_summary(s)) + [zip_pair]
+    eq.rewrites = make_rewrites(_canon_summary(s)) + std_rewrites(ident=IDENT) + make_rewrites(_canon_summary(s)) + [zip_pair, masked_count_sum]
     eq.transparent = {M + "stdpc_n"} if fname in ("stdpc", "stdpc_n") else ({"pyrepseq.util.convert_tuple_to_dataframe_if_necessary"} if fname == "pc" else set())
     return check_equiv(r.rep, rule, q, what, code, spec, where_of(r.P, s.func, s.func.node), eq=eq, key=key)
 
